@@ -169,65 +169,111 @@ def confirm_unsat(text, opts, spent_s, skip_cvc5=False):
 
 
 def _solve_text(args):
-    res = _solve_text0(args)
-    if len(res) == 6:
-        name, r, backend, t, reason, (text_used, opts) = res
-        if r == "unsat" and args[2] == "valid":
+    """Walk the portfolio; the first `unsat` that a second solver confirms wins.  An unconfirmed `unsat` is kept as a
+    fallback ("(single)") while later stages (smaller premise sets, other configurations) are tried."""
+    fallback = None
+    ctl = {"deadline": None}
+    for res in _solve_stages(args, ctl):
+        if len(res) == 6 and res[1] == "unsat" and args[2] == "valid":
+            name, r, backend, t, reason, (text_used, opts) = res
             c = confirm_unsat(text_used, opts, t, skip_cvc5=(backend == "cvc5"))
             if c.startswith("conflict"):
                 return name, "unknown", backend, t, f"SOLVER DISAGREEMENT: {backend} (z3 {z3.get_version_string()}) says unsat, {c.split(':')[1]} says sat"
-            backend = backend + ("+" + c.split(":")[1] if c.startswith("confirmed") else "(single)")
-        return name, r, backend, t, reason
-    return res
+            if c.startswith("confirmed"):
+                return name, r, backend + "+" + c.split(":")[1], t, reason
+            if fallback is None:
+                fallback = (name, r, backend + "(single)", t, reason)
+                ctl["deadline"] = time.time() + 45  # look a little further for a proof a second solver can confirm
+            continue
+        if res[1] == "sat" and fallback is not None:
+            return res[0], "unknown", res[2], res[3], f"SOLVER DISAGREEMENT: {fallback[2]} says unsat, {res[2]} says sat"
+        if res[1] in ("sat", "unsat") or fallback is None:
+            return tuple(res[:5])
+        break
+    if fallback is not None:
+        return fallback
+    return tuple(res[:5])
 
 
-def _solve_text0(args):
-    """z3 with a short budget, then cvc5, then z3 with the full budget."""
+def _solve_stages(args, ctl=None):
+    """Generator over the portfolio: z3 E-matching configurations on the full problem and on premise-selected
+    sub-problems, z3 default, cvc5, z3 with the full budget.  Every `unsat` is yielded with the text and options
+    that produced it; the last item is the final sat / unknown verdict."""
     name, text, expect, timeout_ms, use_cvc5 = args[:5]
     subsets = args[5] if len(args) > 5 else []
     t0 = time.time()
-    first = min(timeout_ms, 6000)
+    first = min(timeout_ms, max(6000, timeout_ms // 4))   # 6 s in the first pass, 15 s in the retry pass (60 s budget)
+    subt = max(15000, timeout_ms // 3)   # premise-selected sub-problems: the stage that settles most hard obligations
     LIN = {"smt.mbqi": False, "smt.arith.nl": False}
     EM = {"smt.mbqi": False}
     # Restricted configurations: E-matching only (EM), and additionally nonlinear products treated
     # syntactically (LIN).  Their `unsat` is sound; their `sat`/`unknown` is never used.  Premise-selected
     # sub-problems likewise: proving the goal from a subset of the hypotheses proves it from all.
+    def late():
+        return bool(ctl and ctl.get("deadline") and time.time() > ctl["deadline"])
+
     if expect != "valid":  # vacuity (cover) checks: a model is wanted, only the full configuration counts
         r, reason = _z3_check(text, timeout_ms)
-        return name, r, "z3", time.time() - t0, reason
+        yield name, r, "z3", time.time() - t0, reason
+        return
     r1, _ = _z3_check(text, 2500, LIN)
     if r1 == "unsat":
-        return name, r1, "z3-lin", time.time() - t0, "", (text, LIN)
-    if expect == "valid":
-        for tag, sub in subsets:
-            r1, _ = _z3_check(sub, 8000, EM)
-            if r1 == "unsat":
-                return name, r1, f"z3-{tag}", time.time() - t0, "", (sub, EM)
+        yield name, r1, "z3-lin", time.time() - t0, "", (text, LIN)
+    for tag, sub in subsets:
+        if late():
+            break
+        r1, _ = _z3_check(sub, subt, EM)
+        if r1 == "unsat":
+            yield name, r1, f"z3-{tag}", time.time() - t0, "", (sub, EM)
+    if late():
+        yield name, "unknown", "z3", time.time() - t0, "no confirmable proof found within the extra budget"
+        return
     r1, _ = _z3_check(text, first, EM)
     if r1 == "unsat":
-        return name, r1, "z3-ematch", time.time() - t0, "", (text, EM)
+        yield name, r1, "z3-ematch", time.time() - t0, "", (text, EM)
+    if late():
+        yield name, "unknown", "z3", time.time() - t0, "no confirmable proof found within the extra budget"
+        return
     r, reason = _z3_check(text, first)
     if r in ("sat", "unsat"):
-        return name, r, "z3", time.time() - t0, reason, (text, {})
-    if expect == "valid":
-        for tag, sub in subsets:
-            r1, _ = _z3_check(sub, 8000, LIN)
-            if r1 == "unsat":
-                return name, r1, f"z3-{tag}-lin", time.time() - t0, "", (sub, LIN)
+        yield name, r, "z3", time.time() - t0, reason, (text, {})
+        if r == "sat":
+            return
+    for tag, sub in subsets:
+        if late():
+            break
+        r1, _ = _z3_check(sub, subt, LIN)
+        if r1 == "unsat":
+            yield name, r1, f"z3-{tag}-lin", time.time() - t0, "", (sub, LIN)
+    for tag, sub in subsets:
+        if late():
+            break
+        r1, _ = _z3_check(sub, subt)
+        if r1 == "unsat":
+            yield name, r1, f"z3-{tag}-nl", time.time() - t0, "", (sub, {})
+    if late():
+        yield name, "unknown", "z3", time.time() - t0, "no confirmable proof found within the extra budget"
+        return
     r1, _ = _z3_check(text, 3 * first, LIN)
     if r1 == "unsat":
-        return name, r1, "z3-lin", time.time() - t0, "", (text, LIN)
+        yield name, r1, "z3-lin", time.time() - t0, "", (text, LIN)
+    if late():
+        yield name, "unknown", "z3", time.time() - t0, "no confirmable proof found within the extra budget"
+        return
     if use_cvc5:
         r2, reason2 = run_cvc5(text)
         if r2 in ("sat", "unsat"):
-            return name, r2, "cvc5", time.time() - t0, reason2, (text, {})
+            yield name, r2, "cvc5", time.time() - t0, reason2, (text, {})
+            if r2 == "sat":
+                return
         reason = f"z3: {reason}; cvc5: {reason2}"
     if timeout_ms > first:
         r, reason3 = _z3_check(text, timeout_ms)
         if r in ("sat", "unsat"):
-            return name, r, "z3", time.time() - t0, reason3, (text, {})
+            yield name, r, "z3", time.time() - t0, reason3, (text, {})
+            return
         reason = f"{reason}; z3 (full budget): {reason3}"
-    return name, r, "z3", time.time() - t0, reason
+    yield name, r if r not in ("unsat",) else "unknown", "z3", time.time() - t0, reason
 
 
 def run_cvc5(text, timeout_s=None):
@@ -286,7 +332,7 @@ def run_jobs(jobs, workers, hard_factor=3.0):
             p = ctx.Process(target=_job_main, args=(child, job), daemon=True)
             p.start()
             child.close()
-            hard = (6 * min(job[3], 6000) + job[3] + 16000 * (len(job[5]) if len(job) > 5 else 0)) / 1000.0 * 1.5 + (CVC5_TIMEOUT_S + 6 if job[4] else 0) + 5 + (100 if CONFIRM else 0)
+            hard = (6 * min(job[3], max(6000, job[3] // 4)) + job[3] + 3 * max(15000, job[3] // 3) * (len(job[5]) if len(job) > 5 else 0)) / 1000.0 * 1.5 + (CVC5_TIMEOUT_S + 6 if job[4] else 0) + 5 + (100 if CONFIRM else 0) + 16 * (len(job[5]) if len(job) > 5 else 0) + (240 if CONFIRM else 0)
             running[job[0]] = (p, parent, time.time(), hard)
         done = []
         for name, (p, conn, t0, hard) in running.items():
